@@ -363,7 +363,78 @@ func (a *Analyzer) ParentPath() []RuleResult {
 		}
 	}
 	out = append(out, RuleResult{"B-PARENT", "(module)", "addFile call sites", "", n >= 2, fmt.Sprintf("%d call sites", n)})
+	// a helper generator built with anything but a qualified name (the raw reference text) resolves relative references against the
+	// working directory; that is harmless only while everything of that schema has already been generated under its qualified name,
+	// i.e. while an addFile(<qualified>, <same schema>) call DOMINATES the construction (unconditionally, on every path)
+	isQualified := func(v ssa.Value) bool {
+		if ex, ok := v.(*ssa.Extract); ok && ex.Index == 0 {
+			if call, isCall := ex.Tuple.(*ssa.Call); isCall {
+				if g := call.Call.StaticCallee(); g != nil && strings.HasSuffix(g.String(), "schemas.QualifiedFileName") {
+					return true
+				}
+			}
+		}
+		return false
+	}
+	helpers := 0
+	for _, f := range a.P.Funcs {
+		occ := 0
+		for _, c := range Calls(f) {
+			if shortCallee(c) != "pkg/generator.newSchemaGenerator" {
+				continue
+			}
+			args := c.Common().Args
+			if len(args) < 4 {
+				continue
+			}
+			name, schema := args[2], args[1]
+			if isQualified(name) {
+				occ++
+				continue
+			}
+			if _, isParam := name.(*ssa.Parameter); isParam {
+				occ++
+				continue // handed down by the caller (addFile's own parameter): judged at the addFile call sites above
+			}
+			helpers++
+			ci := c.(ssa.Instruction)
+			covered := false
+			for _, d := range Calls(f) {
+				if !strings.HasSuffix(shortCallee(d), "Generator).addFile") {
+					continue
+				}
+				da := d.Common().Args
+				di := d.(ssa.Instruction)
+				if len(da) >= 3 && isQualified(da[1]) && sameValue(da[2], schema) && instrDominates(di, ci) {
+					covered = true
+				}
+			}
+			why := "the generator is built with " + exprKey(name) + " (not a qualified name); addFile(<qualified>, same schema) dominates it, so the schema's definitions are generated under the qualified name first"
+			if !covered {
+				why = "the generator is built with " + exprKey(name) + " (not a qualified name) and no addFile(<qualified>, same schema) call dominates the construction: on some path the schema's definitions are generated by this generator, whose relative $refs resolve against the working directory"
+			}
+			out = append(out, RuleResult{"B-PARENT", a.P.FuncName(f), fmt.Sprintf("newSchemaGenerator#%d built with an unqualified name is preceded by addFile on every path", occ), a.P.InstrPos(ci), covered, why})
+			occ++
+		}
+	}
+	_ = helpers
 	return out
+}
+
+// instrDominates: a is executed before b on every path to b (same block: earlier; otherwise block dominance).
+func instrDominates(a, b ssa.Instruction) bool {
+	if a.Block() == b.Block() {
+		for _, in := range a.Block().Instrs {
+			if in == a {
+				return true
+			}
+			if in == b {
+				return false
+			}
+		}
+		return false
+	}
+	return a.Block().Dominates(b.Block())
 }
 
 // Route checks B-ROUTE: each schemaGenerator is built with the output looked
